@@ -43,6 +43,14 @@ def frame_streams(ctx):
     for k in range(len(good)):
         for v in (0x00, 0x7f, 0x80, 0xff, good[k] ^ 0x10, good[k] ^ 0x01):
             out.append(good[:k] + bytes([v]) + good[k + 1:])
+    # well-framed TEXT messages whose payload is NOT UTF-8 (bad byte, truncated tail, bad continuation across the cut),
+    # unfragmented and cut into 2-3 fragments with and without a ping in between
+    bad_texts = [b"a\xffb", b"caf\xc3", b"\xe2\x82", b"\xc3(", b"ok\xed\xa0\x80", b"\xf0\x9f\x98", b"\x80", b"x\xc0\x80y"]
+    for bt in bad_texts:
+        out.append(F(1, bt).enc() + F(2, b"next").enc())
+        for cut in range(0, len(bt) + 1):
+            out.append(F(1, bt[:cut], fin=0).enc() + F(0, bt[cut:]).enc() + F(2, b"next").enc())
+            out.append(F(1, bt[:cut], fin=0).enc() + F(9, b"p").enc() + F(0, b"", fin=0).enc() + F(0, bt[cut:]).enc())
     n = 6000 if ctx.thorough() else 800
     for _ in range(n):
         r = rnd.random()
